@@ -89,6 +89,20 @@ var frameRe = regexp.MustCompile(`(?m)^([A-Za-z0-9_./*()\-]+)\(.*\)\n\t(\S+):(\d
 // classifyCrash decides whether a Go panic trace originates in TarsGo code:
 // the first frame of the panicking goroutine that is neither runtime nor the
 // panic machinery must belong to the repository under test.
+// isStdlib: the import path of a standard-library package has no dot in its first element.
+func isStdlib(fn string) bool {
+	if strings.HasPrefix(fn, "verifsim/") || strings.HasPrefix(fn, "main.") {
+		return false
+	}
+	first := fn
+	if i := strings.Index(fn, "/"); i >= 0 {
+		first = fn[:i]
+		return !strings.Contains(first, ".")
+	}
+	// no slash: "pkg.Func" or "pkg.(*T).M": a single-element path is the standard library (bytes, strings, sort, ...)
+	return true
+}
+
 func classifyCrash(se string) (bool, string) {
 	if strings.Contains(se, "HARNESS-BUG") {
 		return false, ""
@@ -119,6 +133,11 @@ func classifyCrash(se string) (bool, string) {
 			continue
 		}
 		if strings.Contains(fn, "verifsim/simrt.GoCall") {
+			continue
+		}
+		// a standard-library function called with bad arguments panics in the library; the caller
+		// is what matters (encoding/binary.bigEndian.Uint32 on a short slice, bytes, strings, ...)
+		if isStdlib(fn) {
 			continue
 		}
 		if strings.HasPrefix(fn, "github.com/TarsCloud/TarsGo/") || strings.Contains(file, "/inst/tars/") {
